@@ -44,7 +44,7 @@ func newSymStruct(in *absint.Interp, T types.Type, spec ws, param bool, region i
 // values can live in one interpreter.
 func newSymStructNamed(in *absint.Interp, root, sfx string, T types.Type, spec ws, param bool, region int) (absint.Value, map[string]*absint.Bits, absint.Node) {
 	d := in.D
-	val := in.Sym(root, T, true)
+	val := symLoose(in, root, T)
 	params := map[string]*absint.Bits{}
 	dom := absint.True
 	if !param {
@@ -97,6 +97,28 @@ func newSymStructNamed(in *absint.Interp, root, sfx string, T types.Type, spec w
 	return val, params, dom
 }
 
+// symLoose is Interp.Sym for fixed-layout values, except that reference-typed fields of a struct (the FOpts list of a
+// frame header) start as their zero value: the fixed layout is the one without the variable part.
+func symLoose(in *absint.Interp, path string, t types.Type) absint.Value {
+	if u, ok := t.Underlying().(*types.Struct); ok {
+		st := &absint.Struct{T: t, F: map[string]*absint.Cell{}}
+		for i := 0; i < u.NumFields(); i++ {
+			f := u.Field(i)
+			var v absint.Value
+			switch f.Type().Underlying().(type) {
+			case *types.Slice, *types.Pointer, *types.Interface, *types.Map:
+				v = in.Zero(f.Type())
+			default:
+				v = symLoose(in, path+"."+f.Name(), f.Type())
+			}
+			st.F[f.Name()] = &absint.Cell{V: v}
+			st.Order = append(st.Order, f.Name())
+		}
+		return st
+	}
+	return in.Sym(path, t, true)
+}
+
 // expectedDecoded builds the value a field must have when decoding the given wire bits (per the oracle).
 func expectedDecoded(in *absint.Interp, f wf, leafPath string, idx int, wire []absint.Node, goT types.Type) (absint.Value, bool) {
 	d := in.D
@@ -117,7 +139,7 @@ func expectedDecoded(in *absint.Interp, f wf, leafPath string, idx int, wire []a
 		return b
 	}
 	switch f.Kind {
-	case kUint, kBool, kEnum01:
+	case kUint, kBool, kEnum01, kBoolOr:
 		return absint.MakeBits(w, signed, vec(base, f.Width)), true
 	case kInt32:
 		return absint.MakeBits(w, signed, vec(base, 32)), true
